@@ -627,3 +627,170 @@ func TestVerifC36Stress(t *testing.T) {
 	c36Track.mu.Unlock()
 	out.put(res)
 }
+
+
+// ---------------------------------------------------------------- the single-flight contract under abandonment
+
+type c36AbandonOut struct {
+	CancelAt     string   `json:"cancel_at"`     // where the first flight stood when its caller gave up
+	Second       string   `json:"second"`        // same-node | forwarded
+	CallerGaveUp bool     `json:"caller_gave_up"`
+	SecondFlight bool     `json:"second_flight"` // the later caller started a flight of its own while the first was still in progress
+	MaxRun       int      `json:"max_run"`
+	MaxOn        []int    `json:"max_on"`
+	Notes        []string `json:"notes"`
+	Ops          []vregOp `json:"ops"`
+}
+
+// TestVerifC36Abandon checks the contract the model takes from runSpawnActivation: on one node at most one spawn
+// flight per name is in progress, whatever the callers do. A caller abandons SpawnSingleton (its context is cancelled)
+// at each scheduling point of its flight; a later caller (on the same node, or forwarded from another node) must wait
+// for that flight instead of starting a second one. Stable leader (node 0) throughout.
+func TestVerifC36Abandon(t *testing.T) {
+	out := newVerifWriter(t, "c36_abandon.jsonl")
+	defer out.close()
+	w := newC36World(t, 3)
+	defer w.close()
+	idx := 0
+	for _, cancelAt := range []string{"aexists", "prestart", "aput"} {
+		for _, second := range []string{"same-node", "forwarded"} {
+			idx++
+			name := fmt.Sprintf("abandon%d", idx)
+			res := c36AbandonOut{CancelAt: cancelAt, Second: second}
+			w.reg.mu.Lock()
+			w.reg.log = nil
+			w.reg.logOn = true
+			w.reg.controlled = false
+			w.reg.mu.Unlock()
+			call := func(node int) (*vregThread, context.CancelFunc) {
+				th := newVregThread(node)
+				cctx, cancel := context.WithCancel(th.ctx())
+				sys := w.sys[node]
+				go func() {
+					<-th.resume
+					_, err := sys.SpawnSingleton(cctx, name, &C36Actor{}, WithSingletonSpawnRetries(1), WithSingletonSpawnTimeout(time.Hour))
+					r := "ok"
+					if err != nil {
+						r = "err:" + err.Error()
+					}
+					th.report <- vregEvent{Finished: true, Result: r}
+				}()
+				return th, cancel
+			}
+			a, cancelA := call(0)
+			a.Answer = 0
+			reachedPoint := false
+			for k := 0; k < 6; k++ {
+				ev, ok := a.tryAdvance(true, 10*time.Second)
+				if !ok || ev.Finished {
+					break
+				}
+				if ev.Blocked == cancelAt {
+					reachedPoint = true
+					break
+				}
+			}
+			if !reachedPoint {
+				res.Notes = append(res.Notes, "first call never reached "+cancelAt)
+				cancelA()
+				out.put(res)
+				continue
+			}
+			// the caller gives up; its flight stays where it is
+			cancelA()
+			if ev, ok := a.await(5 * time.Second); ok && ev.Finished {
+				res.CallerGaveUp = true
+				res.Notes = append(res.Notes, "abandoning caller returned: "+ev.Result)
+			} else {
+				res.Notes = append(res.Notes, "abandoning caller did not return within 5s")
+			}
+			// a later caller
+			bNode := 0
+			if second == "forwarded" {
+				bNode = 1
+			}
+			b, cancelB := call(bNode)
+			b.Answer = 0
+			independent := false
+			var bev vregEvent
+			for k := 0; k < 4; k++ {
+				ev, ok := b.tryAdvance(true, 700*time.Millisecond)
+				if !ok {
+					break // parked behind the first flight (or still on its way: collected below)
+				}
+				bev = ev
+				if ev.Finished {
+					break
+				}
+				if ev.Blocked != "members" {
+					independent = true
+					break
+				}
+			}
+			res.SecondFlight = independent
+			if independent {
+				for k := 0; k < 8 && !bev.Finished; k++ {
+					ev, ok := b.tryAdvance(true, 5*time.Second)
+					if !ok {
+						break
+					}
+					bev = ev
+				}
+			}
+			// the abandoned flight goes on to its end (its caller is gone: nobody reports its completion)
+			for k := 0; k < 6; k++ {
+				a.resume <- true
+				if _, ok := a.await(700 * time.Millisecond); !ok {
+					break
+				}
+			}
+			if !bev.Finished {
+				if ev, ok := b.await(10 * time.Second); ok {
+					bev = ev
+					// a parked caller may turn out to run its own flight after all: drive it to the end
+					for k := 0; k < 8 && !bev.Finished; k++ {
+						ev, ok := b.tryAdvance(true, 5*time.Second)
+						if !ok {
+							break
+						}
+						bev = ev
+					}
+				}
+			}
+			res.Notes = append(res.Notes, "later caller: "+bev.Result)
+			cancelB()
+			time.Sleep(20 * time.Millisecond)
+			c36Track.mu.Lock()
+			res.MaxRun = c36Track.maxRun[name]
+			res.MaxOn = append([]int(nil), c36Track.maxOn[name]...)
+			var leftovers []*C36Actor
+			for inst := range c36Track.running {
+				if inst.name == name {
+					leftovers = append(leftovers, inst)
+				}
+			}
+			c36Track.mu.Unlock()
+			w.reg.mu.Lock()
+			res.Ops = append([]vregOp(nil), w.reg.log...)
+			w.reg.logOn = false
+			w.reg.mu.Unlock()
+			res.Notes = append(res.Notes, fmt.Sprintf("instances still running at the end: %d", len(leftovers)))
+			for _, sys := range w.sys {
+				if node, ok := sys.actors.nodeByName(name); ok {
+					if pid := node.value(); pid != nil {
+						_ = pid.Shutdown(context.Background())
+					}
+				}
+			}
+			out.put(res)
+		}
+	}
+	time.Sleep(50 * time.Millisecond)
+	c36Track.mu.Lock()
+	total := 0
+	for _, v := range c36Track.stops {
+		total += v
+	}
+	c36Track.mu.Unlock()
+	w.reg.bgBase = total
+}
